@@ -5,6 +5,7 @@ import Pyunicorn.Lemmas.VisibilityF32
 import Pyunicorn.Lemmas.VisibilityDist
 import Pyunicorn.Lemmas.VisibilityScale
 import Pyunicorn.Lemmas.VisibilityBetwKernel
+import Pyunicorn.Lemmas.VisibilityBetwWalk
 import Pyunicorn.Generated.ArithC14
 /-!
 # C14 — visibility graphs realise the geometric visibility criterion
@@ -973,7 +974,8 @@ theorem model_uses_source_expressions (N : Nat) (A : List (List Bool)) (i d : Na
    proved, only checked per case; **round 5b: proved** for every symmetric matrix with C03's
    kernel theorem — `betweenness_kernel_eq_count`, `visibility_betweenness_kernel_eq_count`,
    section "Round 5b" at the end of this file; right-hand side = the count over enumerated
-   shortest paths).
+   shortest paths; **round 5c: kernel model = `betwSpec`** — `betweenness_kernel_eq_spec`, so the
+   theorems below hold for the kernel model itself: `betweenness_kernel_reversal`).
 2. the float kernel under a monotone rounding with exact differences is a subgraph of the
    exact graph; the horizontal graph depends only on the order of the samples.
 3. loop bounds of the five Cython kernels and the index arrays of the three betweenness
@@ -1643,7 +1645,7 @@ with both numbers obtained by *enumerating* the shortest paths as node lists (`s
 distances: the BFS `Net.dist` = `pathLen`, `pathLen_is_bfs`).  (The walk-count form `betwSpec` of
 round 3, in which the reversal theorems are stated, is a second writing of the same definition;
 `betwSpec = interregionalCount` — the concatenation lemma `σ_ts(l) = σ_tl σ_ls` — is compared by the
-driver on every sampled case and remains unproved, see design/C14.md.) -/
+driver on every sampled case; proved in round 5c below: `betwSpec_eq_interregionalCount`.) -/
 
 /-- **`self.nsi_betweenness(sources=S, targets=T)[i]` of a unit-weight undirected network**, as the
 three methods call it: the kernel model (forward BFS with the flat predecessor arrays, backward
@@ -1737,5 +1739,138 @@ example : NetBetw.shortestPaths 4 (adjFn (adjMat 4 [(0, 1), (1, 2), (2, 3), (0, 
 /-- symmetry is needed by the kernel proof and is a property of the data, not of every matrix -/
 example : ¬ ∀ x y, Mat.at [[false, true], [false, false]] x y = Mat.at [[false, true], [false, false]] y x := by
   intro h; exact absurd (h 0 1) (by decide)
+
+/-! # Round 5c: the reversal theorems for the kernel model itself
+
+Round 5b left one link between two writings of the definition unproved: `betwSpec` (walk counts,
+product form `σ_tl σ_ls / σ_ts` iff `d_tl + d_ls = d_ts`; the reversal theorems of round 3 are stated
+with it) against the kernel model / `interregionalCount`.  It is closed here through property C02's
+round-5b bridge `Nsi.kernel_eq_nsiBetw_net` (kernel model of `_nsi_betweenness` = `nsiBetw`, the double
+sum over weighted walk counts; it contains the concatenation lemma `sigThruLev_eq` and
+`sigLev_eq` / `wcount_last`), imported and specialised to unit weights in
+`Lemmas/VisibilityBetwWalk.lean`: `wcount = wf` (`wcount_unit`), `Net.dist = pathLen`,
+`bcTerm = pairDep` (`bcTerm_unit`), sums over masks = sums over `np.arange(i)` / `np.arange(i+1, N)`
+(`pastIdx_filter`, `futureIdx_filter`).  Hence **retarded ↔ advanced betweenness and the mirrored
+trans-betweenness are theorems about `retBetw`, `advBetw`, `transBetw`** — C03's line-by-line model of
+the Cython kernel as the three methods call it. -/
+
+/-- **kernel model = walk-count definition**: on every symmetric matrix `retarded_betweenness()[i]`,
+`advanced_betweenness()[i]`, `trans_betweenness()[i]` (kernel model) are `retBetwSpec`, `advBetwSpec`,
+`transBetwSpec` -/
+theorem betweenness_kernel_eq_spec (N : Nat) (A : List (List Bool))
+    (hsym : ∀ x y, Mat.at A x y = Mat.at A y x) (i : Nat) (hi : i < N) :
+    retBetw N A i = retBetwSpec N A i ∧ advBetw N A i = advBetwSpec N A i ∧
+    transBetw N A i = transBetwSpec N A i :=
+  ⟨retBetw_eq_spec N A hsym i hi, advBetw_eq_spec N A hsym i hi, transBetw_eq_spec N A hsym i hi⟩
+
+/-- **kernel model = `betwSpec` for any sources and targets given as masks** (`is_source`-style): the
+general statement behind the three methods -/
+theorem nsi_betweenness_kernel_eq_spec (N : Nat) (A : List (List Bool))
+    (hsym : ∀ x y, Mat.at A x y = Mat.at A y x) (S T : Nat → Bool) (i : Nat) (hi : i < N) :
+    nsiBetwAt N A ((List.range N).filter S) ((List.range N).filter T) i
+      = betwSpec N A ((List.range N).filter S) ((List.range N).filter T) i :=
+  nsiBetwAt_eq_betwSpec N A hsym S T i hi
+
+/-- **the two writings of the definition agree** (`Still open` of round 5b): on every symmetric matrix
+the walk-count form `betwSpec` is the count over enumerated shortest paths `interregionalCount`, for
+all sources and targets given by masks, in particular for the three methods -/
+theorem betwSpec_eq_interregionalCount (N : Nat) (A : List (List Bool))
+    (hsym : ∀ x y, Mat.at A x y = Mat.at A y x) (S T : Nat → Bool) (i : Nat) (hi : i < N) :
+    betwSpec N A ((List.range N).filter S) ((List.range N).filter T) i
+      = NetBetw.interregionalCount N (adjFn A) (Net.dist N (adjFn A))
+          ((List.range N).filter S) ((List.range N).filter T) i := by
+  rw [← nsiBetwAt_eq_betwSpec N A hsym S T i hi]
+  exact nsiBetwAt_eq_count N A hsym _ _
+    (fun t ht => List.mem_range.mp (List.mem_filter.mp ht).1) i hi
+
+theorem betweenness_spec_eq_count (N : Nat) (A : List (List Bool))
+    (hsym : ∀ x y, Mat.at A x y = Mat.at A y x) (i : Nat) (hi : i < N) :
+    retBetwSpec N A i = NetBetw.interregionalCount N (adjFn A) (Net.dist N (adjFn A))
+        (pastIdx i) (pastIdx i) i ∧
+    advBetwSpec N A i = NetBetw.interregionalCount N (adjFn A) (Net.dist N (adjFn A))
+        (futureIdx N i) (futureIdx N i) i ∧
+    transBetwSpec N A i = NetBetw.interregionalCount N (adjFn A) (Net.dist N (adjFn A))
+        (pastIdx i) (futureIdx N i) i := by
+  obtain ⟨h1, h2, h3⟩ := betweenness_kernel_eq_spec N A hsym i hi
+  obtain ⟨c1, c2, c3⟩ := betweenness_kernel_eq_count N A hsym i hi
+  exact ⟨h1 ▸ c1, h2 ▸ c2, h3 ▸ c3⟩
+
+/-- **time reversal exchanges retarded and advanced betweenness OF THE KERNEL MODEL and mirrors
+trans-betweenness**: for any two mirrored write logs, `retarded_betweenness()` of the reversed graph is
+the reversed `advanced_betweenness()` of the original one and vice versa, `trans_betweenness()` is
+mirrored — statements about C03's line-by-line model of `_nsi_betweenness` with the masks and
+`np.arange` index arrays the three methods build; no hypothesis besides the mirror relation -/
+theorem betweenness_kernel_reversal (N : Nat) (log log' : List (Nat × Nat))
+    (hm : ∀ a b, a < N → b < N → entry log' a b = entry log (N - 1 - a) (N - 1 - b))
+    (a : Nat) (ha : a < N) :
+    retBetw N (adjMat N log') a = advBetw N (adjMat N log) (N - 1 - a) ∧
+    advBetw N (adjMat N log') a = retBetw N (adjMat N log) (N - 1 - a) ∧
+    transBetw N (adjMat N log') a = transBetw N (adjMat N log) (N - 1 - a) := by
+  obtain ⟨r', a', t'⟩ := betweenness_kernel_eq_spec N _ (adjFn_adjMat_symm N log') a ha
+  obtain ⟨r, a0, t0⟩ :=
+    betweenness_kernel_eq_spec N _ (adjFn_adjMat_symm N log) (N - 1 - a) (by omega)
+  obtain ⟨s1, s2, s3⟩ := reverse_exchanges_betweenness N log log' hm a ha
+  exact ⟨by rw [r', a0, s1], by rw [a', r, s2], by rw [t', t0, s3]⟩
+
+/-- composed for `VisibilityGraph(x, t, missing_values=True)` and its time reversal: both constructors
+succeed and the kernel models of the three methods are exchanged / mirrored -/
+theorem class_betweenness_kernel_reversal_nvg (x : List Val) (t : List Rat) (c : Rat)
+    (ht : t.length = x.length) (inc : ∀ a b, a < b → b < x.length → tAt t a < tAt t b) :
+    ∃ log log', classLog x (some t) true false = .ok log ∧
+      classLog x.reverse (some (revT c t)) true false = .ok log' ∧
+      let N := x.length
+      let A := adjMat N log
+      let A' := adjMat N log'
+      ∀ a, a < N → retBetw N A' a = advBetw N A (N - 1 - a) ∧
+        advBetw N A' a = retBetw N A (N - 1 - a) ∧
+        transBetw N A' a = transBetw N A (N - 1 - a) := by
+  have g : Good x t (some (nanMask x)) x.length :=
+    ⟨Nat.le_refl _, by omega, by intro m hm; cases hm; simp [nanMask], inc⟩
+  obtain ⟨log, log', h1, h2, hm⟩ := reverse_mirrors_nvg_mv x t c x.length rfl ht g
+  exact ⟨log, log', by rw [class_nvg_missing]; exact h1,
+    by rw [class_nvg_missing, List.length_reverse]; exact h2,
+    fun a ha => betweenness_kernel_reversal _ log log' hm a ha⟩
+
+/-- the same for `VisibilityGraph(x, horizontal=True, missing_values=True)`, any series -/
+theorem class_betweenness_kernel_reversal_hvg (x : List Val) (tm tm' : Option (List Rat)) :
+    ∃ log log', classLog x tm true true = .ok log ∧
+      classLog x.reverse tm' true true = .ok log' ∧
+      let N := x.length
+      let A := adjMat N log
+      let A' := adjMat N log'
+      ∀ a, a < N → retBetw N A' a = advBetw N A (N - 1 - a) ∧
+        advBetw N A' a = retBetw N A (N - 1 - a) ∧
+        transBetw N A' a = transBetw N A (N - 1 - a) := by
+  obtain ⟨log, log', h1, h2, hm⟩ := reverse_mirrors_hvg x tm tm'
+  exact ⟨log, log', h1, h2, fun a ha => betweenness_kernel_reversal _ log log' hm a ha⟩
+
+/-- the first sample has no past, the last no future: the kernel models vanish there -/
+theorem betweenness_kernel_at_the_ends (N : Nat) (log : List (Nat × Nat)) (hN : 0 < N) :
+    retBetw N (adjMat N log) 0 = 0 ∧ advBetw N (adjMat N log) (N - 1) = 0 ∧
+    transBetw N (adjMat N log) 0 = 0 ∧ transBetw N (adjMat N log) (N - 1) = 0 := by
+  obtain ⟨r0, _, t0⟩ := betweenness_kernel_eq_spec N _ (adjFn_adjMat_symm N log) 0 hN
+  obtain ⟨_, a1, t1⟩ := betweenness_kernel_eq_spec N _ (adjFn_adjMat_symm N log) (N - 1) (by omega)
+  obtain ⟨e1, e2, e3, e4⟩ := betweenness_at_the_ends N (adjMat N log) hN
+  exact ⟨r0.trans e1, a1.trans e2, t0.trans e3, t1.trans e4⟩
+
+/-! non-vacuity: the tree `0–2, 1–2, 2–3` and its mirror image `1–3, 1–2, 0–1`: the logs are mirrored,
+the kernel models are non-zero and exchanged (values evaluated by the kernel model: two ordered pairs of
+past samples are joined only through sample 2), kernel model = `betwSpec`, and on the 4-cycle both give
+`1/2`. -/
+example : ∀ a, a < 4 → ∀ b, b < 4 →
+    entry [(1, 3), (1, 2), (0, 1)] a b = entry [(0, 2), (1, 2), (2, 3)] (4 - 1 - a) (4 - 1 - b) := by
+  decide
+example : advBetw 4 (adjMat 4 [(1, 3), (1, 2), (0, 1)]) 1 = 2 ∧
+    retBetw 4 (adjMat 4 [(0, 2), (1, 2), (2, 3)]) 2 = 2 ∧
+    retBetw 4 (adjMat 4 [(1, 3), (1, 2), (0, 1)]) 1 = 0 ∧
+    advBetw 4 (adjMat 4 [(0, 2), (1, 2), (2, 3)]) 2 = 0 ∧
+    transBetw 4 (adjMat 4 [(1, 3), (1, 2), (0, 1)]) 1 = 2 ∧
+    transBetw 4 (adjMat 4 [(0, 2), (1, 2), (2, 3)]) 2 = 2 ∧
+    retBetwSpec 4 (adjMat 4 [(0, 2), (1, 2), (2, 3)]) 2 = 2 := by decide +kernel
+example : transBetw 4 (adjMat 4 [(0, 1), (1, 2), (2, 3), (0, 3)]) 1 = 1 / 2 ∧
+    transBetwSpec 4 (adjMat 4 [(0, 1), (1, 2), (2, 3), (0, 3)]) 1 = 1 / 2 := by decide +kernel
+/-- the masks of the general statement: `np.arange(i)` and `np.arange(i+1, N)` -/
+example : pastIdx 2 = (List.range 4).filter (fun t => decide (t < 2)) ∧
+    futureIdx 4 1 = (List.range 4).filter (fun t => decide (1 < t)) := by decide
 
 end Pyunicorn.Visibility
